@@ -3,6 +3,7 @@ Coq, verdicts, evidence.  See DESIGN.md section 2.2."""
 import fcntl
 import json
 import os
+import threading
 import random
 import re
 import shutil
@@ -181,8 +182,35 @@ def gallina_Z(z):
 _num_re = re.compile(r"-?\d+")
 
 
+def _mem_gb(field):
+    try:
+        for line in open("/proc/meminfo"):
+            if line.startswith(field + ":"):
+                return int(line.split()[1]) // (1024 * 1024)
+    except OSError:
+        pass
+    return 64
+
+
+# coqc evaluating a large case file takes several GB: no more of them at once than the machine's memory carries, and none is
+# started while little memory is free (other checks may be running beside this one)
+_COQC_SLOTS = threading.BoundedSemaphore(max(2, min(16, _mem_gb("MemTotal") // 6)))
+
+
+def _wait_for_memory(min_gb=7, max_wait=1200):
+    t0 = time.time()
+    while _mem_gb("MemAvailable") < min_gb and time.time() - t0 < max_wait:
+        time.sleep(5)
+
+
 def coq_eval(name, body, timeout=600):
     """Write .build/cases/<name>.v with `body` and run coqc; return (ok, stdout+stderr)."""
+    with _COQC_SLOTS:
+        _wait_for_memory()
+        return _coq_eval(name, body, timeout)
+
+
+def _coq_eval(name, body, timeout=600):
     d = os.path.join(BUILD, "cases")
     os.makedirs(d, exist_ok=True)
     path = os.path.join(d, name + ".v")
